@@ -61,6 +61,7 @@ def gate (j : Json) : Except String Json := do
   | "quadraticDecomposed" => .ok (ofMat (quadraticDecomposed (rr 0) (rr 1) (gg 0) (rr 2) (rr 3)))
   | "quartic" => .ok (ofMat (quartic (rr 0, rr 1, gg 0) (rr 2, rr 3, gg 1) (rr 4, rr 5, gg 2)))
   | "cubicSingle" => .ok (ofMat (cubicSingle k (rr 0, rr 1, gg 0)))
+  | "cubicGenerator" => .ok (ofMat (cubicGenerator (gg 0) (gg 1) (gg 2)))
   | s => .error s!"unknown gate {s}"
 
 def occ (j : Json) : Except String Json := do
@@ -111,6 +112,13 @@ def ofFfftOp : FfftOp → Json
 def ffft (j : Json) : Except String Json := do
   .ok (J.ofList ofFfftOp (ffftOps (← J.nat (← J.field j "n"))))
 
+def ffftExp (j : Json) : Except String Json := do
+  .ok (J.ofList J.ofNatList (ffftExpTable (← J.nat (← J.field j "n"))))
+
+def slaterSchedule (j : Json) : Except String Json := do
+  .ok (J.ofList (J.ofList fun (ab : Nat × Nat) => J.ofNatList [ab.1, ab.2])
+    (slaterSchedulePairs (← J.nat (← J.field j "n"))))
+
 def handle (op : String) (j : Json) : Option (Except String Json) :=
   match op with
   | "c14.swap" => some (swap j)
@@ -123,6 +131,8 @@ def handle (op : String) (j : Json) : Option (Except String Json) :=
   | "c14.spinblock" => some (spinBlock j)
   | "c14.givens" => some (givens j)
   | "c14.ffft" => some (ffft j)
+  | "c14.ffftexp" => some (ffftExp j)
+  | "c14.slaterschedule" => some (slaterSchedule j)
   | _ => none
 
 end C14
